@@ -828,6 +828,26 @@ class Interp:
             return TupleV([v.fields[n] for n in v.nt_order])      # type: ignore[attr-defined]
         return v
 
+    def dynamic_class_attr(self, c: ClassInfo, name: str, node, fr) -> Optional[Value]:
+        """a class attribute that is not written in a class body but assigned when the class is created
+        (`__init_subclass__` of a base class: run once per class, as the class statement does) or later (`cls.x = ...`)"""
+        for k in c.mro():
+            done = ("$init_subclass", k.name)
+            if done not in self.run.const_cache:
+                self.run.const_cache[done] = True
+                hook = k.find_method("__init_subclass__", after=k)
+                if hook is not None:
+                    self.call_func(hook, [], {}, ClassV(k), node, fr)
+        for k in c.mro():
+            key = ("$classattr", k.name + "." + name)
+            if key in self.run.const_cache:
+                return self.run.const_cache[key]      # assigned at run time (or already evaluated), nearest class first
+            if name in k.attrs:
+                return self.class_attr(k, name, k.attrs[name])
+            if name in k.methods:
+                return None
+        return None
+
     # ------------------------------------------------------------------ attributes
     def get_attr(self, v: Value, name: str, node: Optional[ast.AST], fr: Optional[Frame]) -> Value:
         if isinstance(v, ListV) and v.absorbed is not None and name not in ("append", "extend", "insert"):
@@ -842,12 +862,17 @@ class Interp:
                 if m.is_static:
                     return FuncV(m, None)
                 return FuncV(m, v)
+            dyn = self.dynamic_class_attr(v.cls, name, node, fr)
+            if dyn is not None:
+                return dyn
             ca = v.cls.find_attr(name)
             if ca is not None:
                 c, expr = ca
                 return self.class_attr(c, name, expr)
             if name == "__class__":
                 return ClassV(v.cls)
+            if getattr(v, "nt_order", None) is not None and name in ("_asdict", "_replace", "_fields"):
+                return Extern("$namedtuple." + name, v)
             key = f"{v.cls.name}.__getattr__"
             if key in self.summaries:
                 return self.summaries[key](self, None, v, [Str.lit(name)], {}, node, fr)
@@ -863,12 +888,17 @@ class Interp:
                 if m.is_classmethod:
                     return FuncV(m, v)
                 return FuncV(m, None)
+            dyn = self.dynamic_class_attr(c, name, node, fr)
+            if dyn is not None:
+                return dyn
             ca = c.find_attr(name)
             if ca is not None:
                 k, expr = ca
                 return self.class_attr(k, name, expr)
             if name == "__name__":
                 return Str.lit(c.name)
+            if name == "_make" and "NamedTuple" in c.all_extern_bases():
+                return Extern("$namedtuple._make", v)
             if name == "_fields" and "NamedTuple" in c.all_extern_bases():
                 order: List[str] = []
                 for k in reversed(c.mro()):
@@ -896,6 +926,12 @@ class Interp:
                     idx = [n for n in v.cls.attrs].index(v.member) + 1
                     return IntV(idx)
                 return self.eval(expr, Frame(k.module, None, {}))
+            em = v.cls.find_method(name)
+            if em is not None:
+                # a method or property the enum class defines: the member is its `self`
+                if em.is_property:
+                    return self.call_func(em, [], {}, v, node, fr)
+                return FuncV(em, None if em.is_static else v)
             raise self.unsupported(f"enum attribute {name}", node, fr)
         if isinstance(v, SuperV):
             assert isinstance(v.self_val, (Obj, ClassV))
